@@ -19,11 +19,12 @@ def basis_cell(args):
         dom = G.FieldDom(sh.symbols())
         tsym = [dom.symbol(s) for s in sh.tnames]; xs = dom.symbol("x")
         pads = set(sh.pads_lo + sh.pads_hi)
-        tb = E.Table1D(prog, params, dom, sh, sh.x_witness(cell)); it = tb.it
+        xname = E.x_symbol_for(sh, cell)
+        tb = E.Table1D(prog, params, dom, sh, sh.x_witness(cell), xname); it = tb.it
         ok, c = tb.lookup()
         if not ok: return [(tag + " lookup", False, "lookup failed inside (first knot, last knot]", 0)]
         s = sh.piece(cell)
-        spec = E.cox_de_boor(dom, tsym, sh.tw, s, xs, k)
+        spec = [E.subs_x(dom, b, "x", xname) for b in E.cox_de_boor(dom, tsym, sh.tw, s, xs, k)]
         naxes = n - k - 1
         def check(name, vals):
             good = all(vals[j].sym == spec[c - k + j] for j in range(k + 1))
@@ -93,7 +94,8 @@ def compose_shape(args):
             sh = shs[d]; k = orders[d]
             base = [it.fsym("pl%d_%d" % (d, i), Fraction(1000 + i)) for i in range(k)] + [it.fsym("t%d_%d" % (d, m), sh.tw[m]) for m in range(nks[d])] + [it.fsym("ph%d_%d" % (d, i), Fraction(-1000 - i)) for i in range(k)]
             kptrs.append(G.Ptr(it.array("knots%d" % d, base), k))
-            xs.append(it.fsym("x%d" % d, sh.x_witness(cellsel[d])))
+            xn = "x%d" % d if cellsel[d][0] == "open" else "t%d_%d" % (d, cellsel[d][1])     # on a knot: x IS the knot
+            xs.append(it.fsym(xn, sh.x_witness(cellsel[d])))
         it.set_global("knots", G.Ptr(it.array("knots", kptrs), 0))
         it.set_global("nknots", G.Ptr(it.array("nknots", list(nks)), 0))
         xo = it.array("x", xs); co = it.array("centers", [None] * nd)
@@ -105,7 +107,8 @@ def compose_shape(args):
         for d in range(nd):
             sh = shs[d]
             tsym = [dom.symbol("t%d_%d" % (d, m)) for m in range(nks[d])]
-            Bs.append(E.cox_de_boor(dom, tsym, sh.tw, sh.piece(cellsel[d]), dom.symbol("x%d" % d), orders[d]))
+            xn = "x%d" % d if cellsel[d][0] == "open" else "t%d_%d" % (d, cellsel[d][1])
+            Bs.append([E.subs_x(dom, b, "x%d" % d, xn) for b in E.cox_de_boor(dom, tsym, sh.tw, sh.piece(cellsel[d]), dom.symbol("x%d" % d), orders[d])])
         spec = dom.K(0)
         for idx in itertools.product(*[range(n) for n in naxes]):
             term = dom.symbol("c%d" % sum(i * s for i, s in zip(idx, strides)))
